@@ -26,7 +26,7 @@ def plan(tier, seed):
             for i in range(NSHARDS)]
 
 
-SCALARS = [0, 1, -1, 2, 3, -2, 0.5, -0.25, 1.5, 1e-3, 7.0, True, False, 0.0, -0.0, 1e6, 1 / 3, 1e-12, 1e12, -1e-11, 1e-200, 3e-160]
+SCALARS = [0, 1, -1, 2, 3, -2, 0.5, -0.25, 1.5, 1e-3, 7.0, True, False, 0.0, -0.0, 1e6, 1 / 3, 1e-12, 1e12, -1e-11, 1e-200, 3e-160, 10 ** 10, 4 * 10 ** 9, -(3 * 10 ** 9 + 7)]  # python ints whose products exceed 2**63
 
 
 def _absmag(o):
